@@ -217,10 +217,56 @@ func (g *cgen) nestedOp() (ContOp, bool) {
 	}
 }
 
+// scriptedOp: multi-step patterns whose steps must come in one particular
+// order (rare under independent random choice), each as one operation.
+func (g *cgen) scriptedOp() (ContOp, bool) {
+	r := g.r
+	xi, ok := g.of("list")
+	if !ok {
+		return ContOp{}, false
+	}
+	x := a(xi)
+	z := r.Intn(nAlias)
+	if z == xi {
+		return ContOp{}, false
+	}
+	v := g.val()
+	switch r.Intn(7) {
+	case 0:
+		// an exhausted iterator stays exhausted although the list grows afterwards
+		return st("script.iter-exhaust-then-grow", fmt.Sprintf("it0 = iter(%s)\nfor _v in it0:\n    pass\n%s.append(%s)\nlog(\"after\", next(it0, \"done\"), next(it0, \"done\"))", x, x, v))
+	case 1:
+		// a half-consumed iterator sees later growth and shrinking
+		return st("script.iter-half-then-mutate", fmt.Sprintf("it1 = iter(%s)\n_first = next(it1, \"empty\")\n%s.append(%s)\ndel %s[0]\nlog(\"rest\", _first, list(it1))", x, x, v, x))
+	case 2:
+		// a list that has spare capacity (grown by append) used as left operand of +
+		g.typ[z] = "list"
+		return st("script.append-then-add", fmt.Sprintf("%s.append(%s)\n%s = %s + [%s]\n%s.append(77)\n%s[0:1] = [88]", x, v, a(z), x, v, x, a(z)))
+	case 3:
+		// ... and with an empty right operand, then written in place
+		g.typ[z] = "list"
+		return st("script.add-empty-then-write", fmt.Sprintf("%s.append(%s)\n%s = %s + []\n%s.sort()\n%s.append(66)", x, v, a(z), x, a(z), x))
+	case 4:
+		// a list shrunk by del (spare capacity), then copied by slice and extended
+		g.typ[z] = "list"
+		return st("script.del-then-slice-copy", fmt.Sprintf("%s.extend([5, 6, 7])\ndel %s[0]\n%s = %s[:]\n%s.append(%s)\n%s.append(55)", x, x, a(z), x, a(z), v, x))
+	case 5:
+		// multiplication then in-place change of the product
+		g.typ[z] = "list"
+		return st("script.mul-then-write", fmt.Sprintf("%s = %s * 2\n%s.append(%s)\n%s += [44]", a(z), x, a(z), v, x))
+	default:
+		// += through one alias while another alias is being iterated
+		return st("script.iadd-while-iterating", fmt.Sprintf("_n = 0\nfor _v in %s:\n    _n += 1\n    if _n == 1:\n        %s += [%s]\n    if _n > 20:\n        break\nlog(\"n\", _n)", x, x, v))
+	}
+}
+
 func (g *cgen) op(mixed bool) (ContOp, bool) {
 	r := g.r
 	if r.Chance(1, 8) {
 		return g.nestedOp()
+	}
+	if r.Chance(1, 8) {
+		return g.scriptedOp()
 	}
 	switch r.Intn(10) {
 	case 0, 1, 2, 3, 4, 5:
